@@ -34,5 +34,6 @@ for f in "$ART"/crash-* "$ART"/timeout-* "$ART"/oom-*; do
   echo "FUZZ-CRASH target=$T file=$ROOT/fuzz/found/$prop/$(basename "$f")"
 done
 [ -f "$ART/violations.log" ] && sort "$ART/violations.log" | cut -c1-300 | uniq -c | head -5
-rm -rf /tmp/rwsv-fuzz-* /tmp/rwsv-tree-* 2>/dev/null
+# scratch of these jobs only (other checks may be running beside the campaign)
+for p in "${pids[@]}"; do rm -rf /tmp/rwsv-tree-"$p"-* /tmp/rwsv-fuzz-"$p"* 2>/dev/null; done
 exit $found
